@@ -117,7 +117,7 @@ def fields_of(b):
 
 class SetupSub(Sub):
     name = "setup"
-    budget = {"quick": 5000, "thorough": 60000}
+    budget = {"quick": 16000, "thorough": 250000}
     rule = ("sequences of data packets shaped like the link receiver's output (setup flag on/off, 0..16 bytes "
             "weighted to 8/4/12, inter-word gaps, good / bad / aborted endings, occasional stray strobes); oracle: "
             "packet.received strobes exactly once after each packet that is flagged setup, exactly 8 bytes and "
@@ -297,7 +297,7 @@ def _req(ci):
 
     return st.builds(mk, known, weighted([(0, 8), (1, 1), (2, 1), (3, 1)]),
                      weighted([(0, 4), (1, 4), (2, 2), (3, 1)]), st.integers(-5, 5), bits(16),
-                     st.lists(weighted([(1, 3), (0, 1)]), min_size=0, max_size=12), st.integers(2, 5))
+                     st.lists(weighted([(1, 3), (0, 2)]), min_size=0, max_size=12), st.integers(2, 5))
 
 
 class _DescDriver:
@@ -350,7 +350,7 @@ class _DescDriver:
 
 class DescriptorSub(Sub):
     name = "descriptor"
-    budget = {"quick": 4000, "thorough": 50000}
+    budget = {"quick": 8000, "thorough": 100000}
     rule = ("6 descriptor collections (1..121-byte descriptors of several types/indices, lengths around word "
             "multiples); request sequences with known values, near-miss unknown values (wrong index / wrong type / "
             "random), wLength around the descriptor length, far above, 1..3 and 0, and tx.ready patterns; oracle: "
@@ -380,6 +380,20 @@ class DescriptorSub(Sub):
         return st.integers(0, len(_COLLECTION_SHAPES) - 1).flatmap(
             lambda ci: st.fixed_dictionaries(dict(
                 cfg=st.just(ci), reqs=long_lists(_req(ci), min_size=1, max_size=8, average=3))))
+
+    shrink_budget = 150
+
+    def enumerate(self, tier):
+        cases = []
+        for ci, shapes in enumerate(_COLLECTION_SHAPES):
+            for (t, i, n) in shapes:
+                v = (t << 8) | i
+                reqs = [dict(value=v, wl=wl, ready=rd, pre=2)
+                        for wl, rd in ((n, [1]), (max(1, n - 1), [0, 1]), (n + 5, [1, 0, 0, 1]), (0xFFFF, [1]))]
+                cases.append(dict(cfg=ci, reqs=reqs))
+            cases.append(dict(cfg=ci, reqs=[dict(value=0x0F01 + ci, wl=64, ready=[1], pre=2),
+                                            dict(value=0x0100, wl=8, ready=[1, 0, 1], pre=2)]))
+        return cases
 
     def run(self, case):
         h, table = self.harness(case["cfg"])
